@@ -376,6 +376,11 @@ func checkConcCompile(prop string) func(json.RawMessage) (ev.Result, error) {
 					if err := c05ClosedReturnSet(p, cp.raw); err != nil {
 						return res, fmt.Errorf("%s: %v", where, err)
 					}
+				case "C04":
+					evs := gen.Events(p, c.Seed, gen.EventOpts{Foreign: true, X32: p.Arch == "x86_64", MaxNrs: 40, Consts: cp.consts})
+					if err := runEvents(p, cp, evs, hostOrder(), nil); err != nil {
+						return res, fmt.Errorf("%s: %v", where, err)
+					}
 				default:
 					evs := gen.Events(p, c.Seed, gen.EventOpts{Own: true, PerNr: 2, MaxNrs: 80, Consts: cp.consts})
 					if err := runEvents(p, cp, evs, hostOrder(), nil); err != nil {
@@ -389,8 +394,45 @@ func checkConcCompile(prop string) func(json.RawMessage) (ev.Result, error) {
 			res.NonTrivial = true
 			res.Classes = append(res.Classes, "concurrent-compilations-for-different-architectures")
 		}
+		sizes := map[string]map[int]bool{}
+		for i := range c.Policies {
+			if want[i].err == nil {
+				if sizes[c.Policies[i].Arch] == nil {
+					sizes[c.Policies[i].Arch] = map[int]bool{}
+				}
+				sizes[c.Policies[i].Arch][len(want[i].insts)] = true
+			}
+		}
+		for _, m := range sizes {
+			if len(m) >= 2 {
+				res.NonTrivial = true
+				res.Classes = append(res.Classes, "concurrent-compilations-of-different-sizes-for-one-architecture")
+				break
+			}
+		}
 		return res, nil
 	}
+}
+
+// drawConcCompileOneArch: the goroutines compile policies of different sizes, half of the time all for one architecture
+// (state that the compiler keeps per architecture is then shared by all of them) and more often each (k up to 16).
+func drawConcCompileOneArch(t *rapid.T) concCompileCase {
+	c := concCompileCase{K: rapid.IntRange(4, 16).Draw(t, "k"), Seed: rapid.Uint64().Draw(t, "seed")}
+	g := rapid.IntRange(2, 8).Draw(t, "goroutines")
+	one := rapid.Bool().Draw(t, "one-architecture")
+	a := drawArch(t)
+	for i := 0; i < g; i++ {
+		prof := []gen.Profile{gen.Small, gen.NamesOnly, gen.NamesOnly, gen.CondHeavy, gen.Long}[rapid.IntRange(0, 4).Draw(t, "profile")]
+		if !one && i > 0 {
+			a = drawArch(t)
+		}
+		c.Policies = append(c.Policies, gen.Policy(t, a, gen.Opts{Profile: prof, MaxInsns: 1500}))
+	}
+	return c
+}
+
+func TestC04Concurrent(t *testing.T) {
+	ev.Prop(t, "C04", "concurrent", drawConcCompileOneArch, checkConcCompile("C04"))
 }
 
 func TestC01Concurrent(t *testing.T) {
